@@ -504,4 +504,86 @@ example : (revert (run (Db.empty.set (0, 0) [(1, 10)])
       [.get 0 0 1, .set 0 0 1 5, .forceWrite 0 0 1, .set 0 0 1 6, .create 3 [(0, [(1, 1)])]])).map
         (fun t => (toStateUpdates t).1) = some [] := by decide
 
+/-! ### revert, whole track: substates outside the force-write set carry no write
+
+`InForce force n p k`: the substate `(n, p, k)` was force-written. For every track and every
+substate NOT force-written, a successful revert leaves exactly the reverted tracked value of a
+surviving (not new) node, hence it contributes no update (`revert_keeps_only_force_writes_frame`:
+only force-written substates can appear in a failed transaction's state updates). -/
+
+def InForce (force : Nodes) (n p k : Nat) : Prop :=
+  ∃ nd, (n, nd) ∈ force ∧ ∃ part, (p, part) ∈ nd.parts ∧ ∃ tv, (k, tv) ∈ part
+
+theorem applyForcePart_frame (n p : Nat) (part : TPart) (nodes nodes' : Nodes)
+    (hr : applyForcePart nodes n p part = some nodes') (n' p' k' : Nat)
+    (hout : ¬ (n' = n ∧ p' = p ∧ ∃ tv, (k', tv) ∈ part)) :
+    lookupIn nodes' n' p' k' = lookupIn nodes n' p' k' := by
+  induction part generalizing nodes with
+  | nil => simp only [applyForcePart, Option.some.injEq] at hr; rw [hr]
+  | cons ktv rest ih =>
+    simp only [applyForcePart, replaceExisting] at hr
+    split at hr
+    · exact absurd hr (by simp)
+    · rename_i nodes1 h1
+      split at h1
+      · exact absurd h1 (by simp)
+      · simp only [Option.some.injEq] at h1
+        subst h1
+        rw [ih _ hr (fun hh => hout ⟨hh.1, hh.2.1, hh.2.2.elim fun tv hm =>
+          ⟨tv, List.mem_cons_of_mem _ hm⟩⟩), lookupIn_putIn]
+        have : ¬ (n' = n ∧ p' = p ∧ k' = ktv.1) := fun hh =>
+          hout ⟨hh.1, hh.2.1, ktv.2, by rw [hh.2.2]; exact List.mem_cons_self ..⟩
+        simp only [this, if_false]
+
+theorem applyForceNode_frame (n : Nat) (parts : List (Nat × TPart)) (nodes nodes' : Nodes)
+    (hr : applyForceNode nodes n parts = some nodes') (n' p' k' : Nat)
+    (hout : ¬ (n' = n ∧ ∃ part, (p', part) ∈ parts ∧ ∃ tv, (k', tv) ∈ part)) :
+    lookupIn nodes' n' p' k' = lookupIn nodes n' p' k' := by
+  induction parts generalizing nodes with
+  | nil => simp only [applyForceNode, Option.some.injEq] at hr; rw [hr]
+  | cons pp rest ih =>
+    simp only [applyForceNode] at hr
+    split at hr
+    · exact absurd hr (by simp)
+    · rename_i nodes1 h1
+      rw [ih _ hr (fun hh => hout ⟨hh.1, hh.2.elim fun part hm =>
+        ⟨part, List.mem_cons_of_mem _ hm.1, hm.2⟩⟩)]
+      exact applyForcePart_frame _ _ _ _ _ h1 _ _ _ (fun hh =>
+        hout ⟨hh.1, pp.2, by rw [hh.2.1]; exact List.mem_cons_self .., hh.2.2⟩)
+
+theorem applyForce_frame (force : Nodes) (nodes nodes' : Nodes)
+    (hr : applyForce nodes force = some nodes') (n' p' k' : Nat)
+    (hout : ¬ InForce force n' p' k') :
+    lookupIn nodes' n' p' k' = lookupIn nodes n' p' k' := by
+  induction force generalizing nodes with
+  | nil => simp only [applyForce, Option.some.injEq] at hr; rw [hr]
+  | cons nn rest ih =>
+    simp only [applyForce] at hr
+    split at hr
+    · exact absurd hr (by simp)
+    · rename_i nodes1 h1
+      rw [ih _ hr (fun hh => hout (hh.elim fun nd hm =>
+        ⟨nd, List.mem_cons_of_mem _ hm.1, hm.2⟩))]
+      exact applyForceNode_frame _ _ _ _ h1 _ _ _ (fun hh =>
+        hout ⟨nn.2, by rw [hh.1]; exact List.mem_cons_self .., hh.2⟩)
+
+/-- `revert_keeps_only_force_writes_frame`: after a successful revert, a substate that was not
+force-written is tracked exactly as in the reverted surviving nodes -/
+theorem revert_keeps_only_force_writes_frame (t t' : Track) (hr : revert t = some t')
+    (n p k : Nat) (hout : ¬ InForce t.force n p k) :
+    lookupIn t'.nodes n p k
+      = lookupIn ((IMap.retain t.nodes (fun _ nd => !nd.isNew)).map
+          (fun nn => (nn.1, nn.2.revertWrites))) n p k := by
+  simp only [revert] at hr
+  split at hr
+  · exact absurd hr (by simp)
+  · rename_i nodes' h1
+    simp only [Option.some.injEq] at hr
+    subst hr
+    exact applyForce_frame _ _ _ h1 _ _ _ hout
+
+/-- non-vacuity: with `(0,0,1)` force-written, `(0,0,2)` is outside the force-write set -/
+example : ¬ InForce [(0, { parts := [(0, [(1, TV.garbage)])], isNew := false })] 0 0 2 := by
+  simp [InForce]
+
 end Radix.Track
